@@ -820,6 +820,19 @@ def _inst_after_seq(spec):
     return False
 
 
+def _transits_after_zero_order_input(spec):
+    """a TRANSITS request after ABSORPTION(ZO) / ABSORPTION(SEQ-ZO-FO): combinations that docs/modelsearch.rst lists
+    as never run by the stepwise algorithms"""
+    _, reqs = resolve(spec)
+    seen = False
+    for r in reqs:
+        if r.cat == 'ABSORPTION' and r.val in ('ZO', 'SEQ-ZO-FO'):
+            seen = True
+        if seen and r.cat == 'TRANSITS':
+            return True
+    return False
+
+
 def _inst_after_lag(spec):
     _, reqs = resolve(spec)
     seen_lag = False
@@ -835,6 +848,7 @@ KNOWN_PREDICATES = {
     'nonmem_nonlinear_elimination_back_to_fo': _nonmem_nonlinear_elimination_back_to_fo,
     'inst_after_lag': _inst_after_lag,
     'inst_after_seq': _inst_after_seq,
+    'transits_after_zero_order_input': _transits_after_zero_order_input,
     'has_inst_request': _has_label_prefix('ABSORPTION(INST)'),
     'has_lag_request': _has_label_prefix('LAGTIME(ON)'),
     'has_bio_request': _has_label_prefix('add_bioavailability'),
@@ -889,7 +903,7 @@ def selfcheck():
 
 
 SUBCHECKS = [
-    SubCheck('sequences', lambda: _strategy(4), run_sequence, quick=1000, thorough=12000),
+    SubCheck('sequences', lambda: _strategy(4), run_sequence, quick=3200, thorough=12000),
     # longer histories only in the thorough tier
     SubCheck('sequences6', lambda: _strategy(6), run_sequence, quick=0, thorough=6000),
 ]
